@@ -31,6 +31,7 @@ import (
 
 type prog struct {
 	Status  int
+	NoRoute bool   // the program runs as the engine's NoRoute handler
 	Mode    string // none, setbody, string, data, append, stream-known, stream-unknown, stream-limited, chunkw
 	Size    int
 	Writes  []int // write sizes (append, chunkw); chunkw: negative value = Flush
@@ -112,7 +113,9 @@ func work(w *mon.W) {
 	st := &state{}
 	opt := rig.Options(func(o *config.Options) {})
 	e := rig.NewEngine(opt, func(e *route.Engine) {
-		e.Any("/*p", func(c context.Context, ctx *app.RequestContext) { st.handle(ctx) })
+		e.Any("/:p", func(c context.Context, ctx *app.RequestContext) { st.handle(ctx) })
+		// the same programs as the not-found handler of the engine (a custom error page)
+		e.NoRoute(func(c context.Context, ctx *app.RequestContext) { st.handle(ctx) })
 	})
 	w.Cases("conn", uint64(w.Pick(30000, 1200000)), func(c *mon.Case) { oneConn(w, c, e, st, nil) })
 	// the same programs on real servers over loopback TCP, standard and netpoll transport
@@ -120,7 +123,8 @@ func work(w *mon.W) {
 	var lbs []*loop.Server
 	for _, np := range []bool{false, true} {
 		lb, err := loop.Start(np, func(h *server.Hertz) {
-			h.Any("/*p", func(c context.Context, ctx *app.RequestContext) { st.handle(ctx) })
+			h.Any("/:p", func(c context.Context, ctx *app.RequestContext) { st.handle(ctx) })
+			h.NoRoute(func(c context.Context, ctx *app.RequestContext) { st.handle(ctx) })
 		})
 		if err != nil {
 			w.Note("loopback server did not start: " + err.Error())
@@ -394,7 +398,15 @@ func oneConn(w *mon.W, c *mon.Case, e *route.Engine, st *state, lb *loop.Server)
 				extra = "Connection: keep-alive\r\n"
 			}
 		}
-		fmt.Fprintf(&in, "%s /r%d %s\r\nHost: x\r\n%s\r\n", p.Method, i, ver, extra)
+		// a fifth of the programs run as the engine's NoRoute handler (unless they would leave
+		// a 404 without a body, which the router fills with its default text by design)
+		pathc := "r"
+		if r.Chance(5) && (p.Status != 404 || (p.Size > 0 && p.Mode != "none" && p.Mode != "redirect" && !mustNoBody(p))) {
+			pathc = "n"
+			p.NoRoute = true
+			progs[len(progs)-1] = p
+		}
+		fmt.Fprintf(&in, "%s /%s%d %s\r\nHost: x\r\n%s\r\n", p.Method, map[string]string{"r": "r", "n": "none/n"}[pathc], i, ver, extra)
 	}
 	st.mu.Lock()
 	st.cur, st.idx = progs, 0
